@@ -107,7 +107,15 @@ def specs(tier: str):
                     if not gast.well_formed(rules):
                         raise common.HarnessError("family produced an ill-formed grammar")
                     out.append(engine.Spec(rules, [g[0] for g in grp], ins, "zero", f"trivia({pack},{tv},n<={n},L={L})"))
-    return out + families.extra_specs("zero", tier) + families.skip_specs("zero", tier, full=True) + backtrack_specs(tier) + families.explicit_trivia_specs("zero", tier)
+    return out + families.extra_specs("zero", tier) + families.skip_specs("zero", tier, full=True) + backtrack_specs(tier) + families.explicit_trivia_specs("zero", tier) + composed_specs(tier)
+
+
+def composed_specs(tier: str):
+    """outer(inner(terminal)) for every terminal of the full set (stack operations and tagged terms included) and every pair of contexts,
+    under WHITESPACE and under a one-character COMMENT, judged by the reference model in four modes (tags are not compared)."""
+    names = families.CTX2_QUICK if tier == "quick" else None
+    terms = tuple(t for t in families.T_FULL if t != families.R("SOI"))
+    return families.ctx2_specs("zero", tier, terms, ("ws", "cm1") if tier == "quick" else ("ws", "cm1", "both", "ws_loud"), names, "ab", "", 45)
 
 
 def backtrack_specs(tier: str):
@@ -144,7 +152,8 @@ def run(tier: str) -> int:
         rule="start rule bodies: every expression with <= n nodes over {\"a\",\"b\",n,at,cp,na,sl} (helper packs P1-P5 give @ $ ! _ rules with sequences, repetitions, optionals, predicates and modifier nestings of depth 3-4), "
              "all unary operators and ~ |, x start-rule modifier x trivia configuration (none / WHITESPACE silent / non-silent / COMMENT two-element / both / choice body / one-char comment / both non-silent) "
              "x every input over {a,b}+trivia symbols up to length L, in all four modes against the reference model; start rules are batched 40 per grammar and failing cases are re-run on the isolated rule; "
-             "a case is non-trivial when the reference run backtracked (incl. giving back trivia) or returned pairs" + families.EXTRA_RULE_TEXT + families.SKIP_RULE_TEXT + families.EXPLICIT_RULE_TEXT + "; plus atomic-backtrack: 15 helper rules (modifier normal/_/@/$/! x three bodies) called inside an abandoned alternative, an abandoned optional, & , !, an abandoned repetition iteration "
+             "a case is non-trivial when the reference run backtracked (incl. giving back trivia) or returned pairs" + families.EXTRA_RULE_TEXT + families.SKIP_RULE_TEXT + families.EXPLICIT_RULE_TEXT + "; plus composed contexts: outer(inner(terminal)) for every terminal of the full set (literals, built-ins, stack operations, tagged terms) and every pair of 13 contexts (thorough: 30), under WHITESPACE and under a one-character COMMENT"
+             "; plus atomic-backtrack: 15 helper rules (modifier normal/_/@/$/! x three bodies) called inside an abandoned alternative, an abandoned optional, & , !, an abandoned repetition iteration "
              "and twice in an abandoned sequence, then called again and followed by \"b\" ~ \"b\", from normal/@/$/! start rules, with silent and non-silent WHITESPACE" + " (zero counts are UNSPEC for the model: judged on 'no foreign exception' only)",
         assumptions=["helper packs are fixed (five), not enumerated", "tags are not modelled"],
     )
